@@ -162,7 +162,12 @@ def run_case(case, ctx):
     else:
         ctx.count('rules_taken_with_the_cache_as_found')
     try:
-        rule_obj = LogRule(n=n, method=method, order=order)
+        if (n + 2 * order) % 3 == 0:
+            # n and order handed over as numpy integers (elements of np.arange, np.int32): integers like any other
+            ctx.count('n_and_order_as_numpy_integers')
+            rule_obj = LogRule(n=np.arange(n, n + 1)[0], method=method, order=np.int32(order) if order % 2 else np.int64(order))
+        else:
+            rule_obj = LogRule(n=n, method=method, order=order)
         w = np.asarray(rule_obj.rule(ratio), dtype=float)
         method_order = int(rule_obj.method_order)
         rstep = int(rule_obj.richardson_step)
